@@ -418,6 +418,15 @@ pub fn check_outcome(o: &Outcome, ovh: usize, vsz: usize) -> Vec<Fail> {
         }
         _ => return v,
     };
+    // The reference below says what an operation must do *from a state that satisfies the cache's invariants*.
+    // A state that already exceeds its limit, or whose total is not the sum of its recorded / recomputed sizes,
+    // was reported by the state monitors on the line that produced it (C01 / C02); what a correct operation does
+    // from there (evict more, refuse an insertion, underflow) is the echo of that, not a finding of its own.
+    let pre_sum: u128 = pre.ord.iter().map(|e| e.esize as u128).sum();
+    let pre_rec: Option<u128> = pre.rs.as_ref().map(|r| r.iter().map(|x| *x as u128).sum());
+    if pre.cur > pre.max || pre_sum != pre.cur as u128 || pre_rec.map(|r| r != pre.cur as u128).unwrap_or(false) || pre.ord.len() != pre.len {
+        return v;
+    }
     if o.panicked && o.injected.is_none() && o.line.panic_at.is_none() && !o.line.fail_alloc
         && !matches!(op, OpKind::Reserve(_) | OpKind::Shrink(_) | OpKind::ShrinkFit) {
         // no user callback panicked and the allocator did not refuse: the crate's own code panicked
